@@ -3,7 +3,7 @@
 cd /verif
 tier=${1:-quick}; seed=${2:-0}
 for c in $(python3 -c "import json; print(' '.join(c['property_id'] for c in json.load(open('MANIFEST.json'))['checks']))"); do
-  out=$(VERIF_SEED=$seed ./check $c --tier $tier 2>&1); rc=$?
+  out=$(VERIF_SEED=$seed ./check $c --tier $tier $EXTRA 2>&1); rc=$?
   echo "rc=$rc $(echo "$out" | grep -c '^VIOLATION') violations $(echo "$out" | grep -c '^KNOWN-FINDING') known | $(echo "$out" | tail -1 | cut -c1-160)"
   echo "$out" | grep -A2 '^VIOLATION' | cut -c1-300
 done
